@@ -81,10 +81,10 @@ def fmt_injected(v):
     return ",".join("%s=%s" % (f, getattr(v, f)) for f in v._fields)
 
 
-def comp_data(name, kwargs, inject_fn, injects, echo_id, comp_id):
+def comp_data(name, kwargs, inject_fn, injects, echo_id, comp_id, label=None):
     """The get_context_data of every generated component (shared by the real class and the model)."""
     d = {
-        name + "_s": kwargs.get("s", "dflt" + name),
+        name + "_s": kwargs.get("s", "dflt" + (label or name)),
         name + "_l": kwargs.get("l", ["d0"]),
         name + "_n": ["a", "b"],
         name + "_t": True,
@@ -117,7 +117,8 @@ def build_classes(prog, registry=None, module="sim.generated"):
                     v = self.inject(key, DEFAULT_SENTINEL) if has_default else self.inject(key)
                     return fmt_injected(v)
 
-                return comp_data(name, kwargs, inj, cd["injects"], cd.get("echo_id"), self.id if cd.get("echo_id") else None)
+                return comp_data(name, kwargs, inj, cd["injects"], cd.get("echo_id"), self.id if cd.get("echo_id") else None,
+                                 cd.get("label"))
 
             return get_context_data
 
